@@ -57,8 +57,8 @@ func (i *rwInterceptor) WriteHeader(statusCode int) {
 
 	i.wroteHeader = true
 
-	for k, vv := range i.w.Header() {
-		for _, v := range vv {
+	for _, k := range sortedHeaderKeys(i.w.Header()) {
+		for _, v := range i.w.Header()[k] {
 			i.tx.AddResponseHeader(k, v)
 		}
 	}
